@@ -572,11 +572,14 @@ func drawExchange(t *rapid.T) exchangeBatch {
 			if rapid.IntRange(0, 2).Draw(t, "skipwhich") == 0 {
 				which = keys[rapid.IntRange(0, len(keys)-1).Draw(t, "skipidx")]
 			}
+			// (an optional parameter of a sum type is dropped alone; a PATH parameter takes the operation with it)
 			item, _ := paths[which].(map[string]any)
+			delete(paths, which)
+			paths[which+"/{zsum}"] = item
 			for _, mth := range []string{"get", "post", "put", "delete", "patch"} {
 				if op, ok := item[mth].(map[string]any); ok {
 					ps, _ := op["parameters"].([]any)
-					op["parameters"] = append(ps, map[string]any{"name": "zsum", "in": "query", "schema": map[string]any{"oneOf": []any{map[string]any{"type": "string"}, map[string]any{"type": "integer"}}}})
+					op["parameters"] = append(ps, map[string]any{"name": "zsum", "in": "path", "required": true, "schema": map[string]any{"oneOf": []any{map[string]any{"type": "string"}, map[string]any{"type": "integer"}}}})
 				}
 			}
 		}
